@@ -158,7 +158,15 @@ def witnesses(ck):
         for c in ("alter", "hh_id", "p_id_elternteil_1"):
             if c in as_float.columns:
                 as_float[c] = as_float[c].astype("float64")
+        # dict of Series sharing a permuted, sparse index -- alone, and with one more UNUSED Series whose index is
+        # different (same labels in another order / default index): only positions may matter
+        as_dict = {c: shuffled[c] for c in shuffled.columns}
+        as_dict_extra_perm = {**as_dict, "unbenutzte_spalte_xyz": pd.Series(numpy.arange(n, dtype=float), index=sorted(shuffled.index))}
+        as_dict_extra_default = {**as_dict, "unbenutzte_spalte_xyz": pd.Series(numpy.arange(n, dtype=float))}
         for label, data, kw, order in (("debug=True", df, {"debug": True}, numpy.arange(n)),
+                                       ("dict of Series (permuted rows, sparse index)", as_dict, {}, perm),
+                                       ("dict of Series + unused Series with the same labels in sorted order", as_dict_extra_perm, {}, perm),
+                                       ("dict of Series + unused Series with a default index", as_dict_extra_default, {}, perm),
                                        ("integer columns stored as float64 + permuted rows + sparse index", as_float, {}, perm),
                                        ("integer columns stored as float64 + permuted rows + sparse index + debug", as_float, {"debug": True}, perm),
                                        ("permuted rows + sparse index", shuffled, {}, perm),
